@@ -475,8 +475,9 @@ impl<K: KeyT, V: ValT> World<K, V> {
                     Err(pn) => self.handle_panic(acc, pn, &[]),
                 }
             }
-            Op::SExtend { s, items, by_ref } => {
+            Op::SExtend { s, items, by_ref, hint } => {
                 let si = *s as usize;
+                let hint = *hint;
                 let before = self.sets[si].s.verif_state();
                 let objs: Vec<K> = items.iter().map(|&kv| K::make(kv)).collect();
                 let ids: Vec<u64> = objs.iter().map(|k| k.oid()).collect();
@@ -488,7 +489,11 @@ impl<K: KeyT, V: ValT> World<K, V> {
                             return;
                         }
                     }
-                    sut(|| slot.s.extend(objs));
+                    if hint == 0 {
+                        sut(|| slot.s.extend(objs));
+                    } else {
+                        sut(|| slot.s.extend(LyingIter { inner: objs.into_iter(), hint }));
+                    }
                 });
                 let stats = (co.hashes, co.alloc.allocs);
                 match co.result {
@@ -499,7 +504,10 @@ impl<K: KeyT, V: ValT> World<K, V> {
                         acc.out.res = format!("extended {}", items.len());
                         self.post_set(acc, si, before, stats, Cost::Exempt, false, 0, false);
                     }
-                    Err(pn) => self.handle_panic(acc, pn, &[]),
+                    Err(pn) => {
+                        let doc: &[&str] = if hint == 3 { &["capacity-overflow"] } else { &[] };
+                        self.handle_panic(acc, pn, doc);
+                    }
                 }
             }
             Op::SFromIter { s, items } => {
